@@ -35,11 +35,15 @@ except Exception:       # pragma: no cover
 IN_NAME = 'in.l'
 NAMES = {'scanner': 'out.c', 'header': 'out.h', 'tables': 'out.tables', 'backup': 'out.backup'}
 
-ASAN_OPTIONS = 'exitcode=77:detect_leaks=0:abort_on_error=0:allocator_may_return_null=1:handle_abort=1'
+# soft_rss_limit_mb: past it malloc returns NULL (flex then reports an allocation failure) instead of eating the machine
+ASAN_OPTIONS = 'exitcode=77:detect_leaks=0:abort_on_error=0:allocator_may_return_null=1:handle_abort=1:soft_rss_limit_mb=3072'
 UBSAN_OPTIONS = 'halt_on_error=1:exitcode=77:print_stacktrace=1'
 
 CRASH_SIGNALS = (signal.SIGSEGV, signal.SIGABRT, signal.SIGBUS, signal.SIGILL, signal.SIGFPE)
 SAN_RE = re.compile(r'(ERROR: (Address|Leak|Memory|Undefined)Sanitizer|AddressSanitizer:|runtime error:|SUMMARY: \w+Sanitizer)')
+
+
+RSS_NOTE_RE = re.compile(r'[^\n]*(soft rss limit|failed to allocate|allocator is out of memory|requested allocation size)[^\n]*\n?')
 
 
 def sha(b):
@@ -169,13 +173,22 @@ def apply_envspec(env, spec, tools):
         env['WP_MSHIM_MODE'] = str(spec['mshim'].get('mode', 15))
     if spec.get('envpad'):
         env['WP_PAD'] = 'x' * int(spec['envpad'])
-    for k in ('affinity', 'nice', 'burn_pids', 'subdir', 'stack_kb', 'noaslr'):
+    for k in ('affinity', 'nice', 'burn_pids', 'subdir', 'stack_kb', 'noaslr', 'close_stdin'):
         if spec.get(k) is not None:
             pre[k] = spec[k]
     return prefix, pre
 
 
 # ------------------------------------------------------------------ the run
+def base_env(rundir='<run directory>', san=False):
+    """the complete environment of a flex run (before faults and perturbations add to it)"""
+    env = {'PATH': '/usr/bin:/bin', 'LC_ALL': 'C', 'HOME': rundir, 'TMPDIR': rundir}
+    if san:
+        env['ASAN_OPTIONS'] = ASAN_OPTIONS
+        env['UBSAN_OPTIONS'] = UBSAN_OPTIONS
+    return env
+
+
 def _prepare_dir(rundir, cmd, fault):
     if os.path.isdir(rundir):
         shutil.rmtree(rundir)
@@ -242,17 +255,24 @@ def norm_stderr(s, rundir=None):
     return s
 
 
-def run_flex(flex, rundir, cmd, fault=None, envspec=None, tools=None, san=False, keep_bytes=False, timeout=None):
+_MSG = re.compile(r'(?:flex: |' + re.escape(IN_NAME) + r':\d+: |scan\.l:\d+: )[^\n]*')
+
+
+def flex_messages(err_text):
+    """flex's own diagnostics, sorted.  Each is written with one write(2); what m4 prints comes in
+    pieces and the two m4 processes of a --header-file run interleave them at random, so whole-stderr
+    comparisons are meaningless."""
+    return sorted(_MSG.findall(norm_stderr(err_text)))
+
+
+def run_flex(flex, rundir, cmd, fault=None, envspec=None, tools=None, san=False, keep_bytes=False, timeout=None, as_limit_mb=None):
     """returns the outcome dict"""
     tools = tools or {}
     timeout = timeout or TIMEOUT
     _prepare_dir(rundir, cmd, fault)
     cwd = rundir
     argv = argv_of(cmd)
-    env = {'PATH': '/usr/bin:/bin', 'LC_ALL': 'C', 'HOME': rundir, 'TMPDIR': rundir}
-    if san:
-        env['ASAN_OPTIONS'] = ASAN_OPTIONS
-        env['UBSAN_OPTIONS'] = UBSAN_OPTIONS
+    env = base_env(rundir, san)
     prefix, pre = apply_envspec(env, envspec, tools)
     mark = None
     if fault and fault['kind'] == 'm4':
@@ -293,6 +313,9 @@ def run_flex(flex, rundir, cmd, fault=None, envspec=None, tools=None, san=False,
         if fsize is not None:
             resource.setrlimit(resource.RLIMIT_FSIZE, (fsize, fsize))
         resource.setrlimit(resource.RLIMIT_CORE, (0, 0))
+        if as_limit_mb and not san:
+            # flex's appetite is bounded by memory only once -Ca lifts the NFA limit: give it a finite machine
+            resource.setrlimit(resource.RLIMIT_AS, (as_limit_mb << 20, as_limit_mb << 20))
         if pre.get('stack_kb'):
             resource.setrlimit(resource.RLIMIT_STACK, (pre['stack_kb'] * 1024, pre['stack_kb'] * 1024))
         if pre.get('noaslr') and _LIBC is not None:
@@ -306,6 +329,8 @@ def run_flex(flex, rundir, cmd, fault=None, envspec=None, tools=None, san=False,
             if p == 0:
                 os._exit(0)
             os.waitpid(p, 0)
+        if pre.get('close_stdin'):
+            os.close(0)
         if drop_priv:
             os.setgroups([])
             os.setgid(NOBODY)
@@ -323,6 +348,17 @@ def run_flex(flex, rundir, cmd, fault=None, envspec=None, tools=None, san=False,
         stdout_target = so_file
 
     t0 = time.time()
+    own_r = None
+    pipe_cap = None
+    if read_limit is not None and stdout_target == subprocess.PIPE:
+        # our own pipe, shrunk to one page *before* flex starts: the amount flex can
+        # write after the reader is gone is then bounded by read_limit + pipe_cap
+        own_r, own_w = os.pipe()
+        try:
+            pipe_cap = fcntl.fcntl(own_w, F_SETPIPE_SZ, 4096)
+        except OSError:
+            pipe_cap = 65536
+        stdout_target = own_w
     try:
         proc = subprocess.Popen(argv, executable=flex, cwd=cwd, env=env,
                                 stdin=subprocess.DEVNULL, stdout=stdout_target, stderr=subprocess.PIPE,
@@ -330,19 +366,17 @@ def run_flex(flex, rundir, cmd, fault=None, envspec=None, tools=None, san=False,
     finally:
         if so_file is not None:
             so_file.close()
+        if own_r is not None:
+            os.close(own_w)
     out_chunks = []
     err_chunks = []
     nread = 0
     fds = {}
-    if proc.stdout is not None:
-        if read_limit is not None:
-            try:
-                fcntl.fcntl(proc.stdout.fileno(), F_SETPIPE_SZ, 4096)
-            except OSError:
-                pass
-        fds[proc.stdout.fileno()] = 'out'
+    out_file = proc.stdout if own_r is None else os.fdopen(own_r, 'rb', buffering=0)
+    if out_file is not None:
+        fds[out_file.fileno()] = 'out'
         if read_limit == 0:
-            proc.stdout.close()
+            out_file.close()
             fds = {}
     fds[proc.stderr.fileno()] = 'err'
     poller = select.poll()
@@ -372,7 +406,7 @@ def run_flex(flex, rundir, cmd, fault=None, envspec=None, tools=None, san=False,
                 if not b or (read_limit is not None and nread >= read_limit):
                     poller.unregister(fd)
                     del fds[fd]
-                    proc.stdout.close()
+                    out_file.close()
             else:
                 err_chunks.append(b)
                 if not b:
@@ -400,9 +434,9 @@ def run_flex(flex, rundir, cmd, fault=None, envspec=None, tools=None, san=False,
             os.killpg(proc.pid, signal.SIGKILL)
         except OSError:
             pass
-    for f in (proc.stdout, proc.stderr):
+    for f in (out_file, proc.stderr):
         try:
-            if f is not None:
+            if f is not None and not f.closed:
                 f.close()
         except OSError:
             pass
@@ -413,10 +447,12 @@ def run_flex(flex, rundir, cmd, fault=None, envspec=None, tools=None, san=False,
     o = {
         'status': status, 'timeout': timed_out, 'wall': round(wall, 3),
         'stdout_len': len(stdout), 'stdout_sha': sha(stdout),
-        'stderr': err_text[:6000], 'stderr_sha': sha(norm_stderr(err_text).encode('latin-1', 'replace')),
-        'files': {}, 'san': bool(SAN_RE.search(err_text)) or status == 77,
+        'stderr': err_text if len(err_text) <= 40000 else err_text[:20000] + '\n[...]\n' + err_text[-20000:], 'stderr_sha': sha('\n'.join(flex_messages(err_text)).encode('latin-1', 'replace')),
+        'files': {}, 'san': bool(SAN_RE.search(RSS_NOTE_RE.sub('', err_text))) or status == 77,
         'argv': argv,
     }
+    if pipe_cap is not None:
+        o['pipe_cap'] = pipe_cap
     if keep_bytes:
         o['_stdout'] = stdout
     for w in ('scanner', 'header', 'tables', 'backup'):
@@ -427,6 +463,30 @@ def run_flex(flex, rundir, cmd, fault=None, envspec=None, tools=None, san=False,
         if not keep_bytes:
             st.pop('_bytes', None)
         o['files'][w] = st
+    # files the input file asked for by itself (%option backup, outfile=..., tables-file=...)
+    expected = {IN_NAME, 'm4.mark', 'mshim.mark'} | {out_path(cmd, w) for w in ('scanner', 'header', 'tables', 'backup')}
+    extra = {}
+    try:
+        for fn in sorted(os.listdir(cwd)):
+            if fn in expected:
+                continue
+            p_ = os.path.join(cwd, fn)
+            if os.path.isfile(p_) and not os.path.islink(p_):
+                extra[fn] = os.path.getsize(p_)
+    except OSError:
+        pass
+    if cmd['outs'].get('scanner') == 'default' and o['files'].get('scanner', {}).get('kind') == 'missing':
+        # lex.yy.c is only the nominal name: prefix=, c++ and emit= in the input change it
+        cands = [fn for fn in extra if fn.startswith('lex.') and not fn.endswith(('.backup', '.tables'))]
+        if len(cands) == 1:
+            st = _file_state(os.path.join(cwd, cands[0]))
+            if not keep_bytes:
+                st.pop('_bytes', None)
+            st['actual_name'] = cands[0]
+            o['files']['scanner'] = st
+            del extra[cands[0]]
+    if extra:
+        o['extra_files'] = extra
     if mark is not None:
         inv = []
         try:
@@ -507,14 +567,15 @@ def build_tools(workdir, log=None):
     here = os.path.dirname(os.path.abspath(__file__))
     tools = {}
     stub = os.path.join(workdir, 'm4stub')
+    cenv = dict(os.environ, TMPDIR=workdir)      # compiler temporaries stay in the scratch directory
     p = subprocess.run(['gcc', '-O1', '-Wall', '-o', stub, os.path.join(here, 'm4stub.c')],
-                       stdout=subprocess.PIPE, stderr=subprocess.STDOUT, text=True)
+                       stdout=subprocess.PIPE, stderr=subprocess.STDOUT, text=True, env=cenv)
     if p.returncode != 0:
         raise RuntimeError('compiling m4stub.c failed:\n' + p.stdout)
     tools['m4stub'] = stub
     shim = os.path.join(workdir, 'mshim.so')
     p = subprocess.run(['gcc', '-O1', '-Wall', '-shared', '-fPIC', '-o', shim, os.path.join(here, 'mshim.c')],
-                       stdout=subprocess.PIPE, stderr=subprocess.STDOUT, text=True)
+                       stdout=subprocess.PIPE, stderr=subprocess.STDOUT, text=True, env=cenv)
     if p.returncode != 0:
         raise RuntimeError('compiling mshim.c failed:\n' + p.stdout)
     tools['mshim'] = shim
